@@ -373,9 +373,10 @@ func genSend(r *sx.Rng) sx.Tree {
 	}
 	pool := pairPool(r, int(r.Range(1, 6)), false)
 	ops := []sx.Tree{}
+	outside := r.Chance(4)
 	for i := int(r.Range(1, 24)); i > 0; i-- {
 		p := pool[r.Intn(len(pool))]
-		if r.Chance(2) { // outside C12's quantifier: '-' in the type / a key that is not UTF-8
+		if outside && r.Chance(15) { // outside C12's quantifier: '-' in the type / a key that is not UTF-8
 			if r.Bool() {
 				p.t += "-x"
 			} else {
